@@ -98,7 +98,10 @@ func (fs *FS) notDirErr(name string, err error) error {
 	}
 	for dir := path.Dir(name); dir != "."; dir = path.Dir(dir) {
 		results, getErr := getFileRecords(fs.store, []string{dir})
-		if getErr != nil || len(results) != 1 {
+		if getErr != nil {
+			return getErr
+		}
+		if len(results) != 1 {
 			return err
 		}
 		switch {
@@ -108,7 +111,8 @@ func (fs *FS) notDirErr(name string, err error) error {
 			}
 			return err
 		case !errors.Is(results[0].Err, hackpadfs.ErrNotExist):
-			return err
+			// the store failed: report that, rather than claiming the file does not exist
+			return results[0].Err
 		}
 	}
 	return err
